@@ -53,7 +53,8 @@ func c07Deadline() time.Duration {
 	return c07Wait
 }
 func c07Expired() { atomic.AddInt32(&c07Late, 1) }
-const c07Altered = 9999         // bundle index reported for content that matches no bundle built by the harness
+
+const c07Altered = 9999 // bundle index reported for content that matches no bundle built by the harness
 
 // ---- endpoint IDs as (node, demux) pairs ----
 func c07Node(n int) string {
@@ -115,7 +116,7 @@ func newC07Mock(eids []bpv7.EndpointID) *c07Mock {
 	}()
 	return a
 }
-func (a *c07Mock) Endpoints() []bpv7.EndpointID       { return a.eids }
+func (a *c07Mock) Endpoints() []bpv7.EndpointID        { return a.eids }
 func (a *c07Mock) MessageReceiver() chan agent.Message { return a.recv }
 func (a *c07Mock) MessageSender() chan agent.Message   { return a.send }
 func (a *c07Mock) take() []bpv7.Bundle {
@@ -182,7 +183,7 @@ func newC07Ping(e bpv7.EndpointID) *c07Ping {
 	}()
 	return w
 }
-func (w *c07Ping) Endpoints() []bpv7.EndpointID       { return w.p.Endpoints() }
+func (w *c07Ping) Endpoints() []bpv7.EndpointID        { return w.p.Endpoints() }
 func (w *c07Ping) MessageReceiver() chan agent.Message { return w.recv }
 func (w *c07Ping) MessageSender() chan agent.Message   { return w.send }
 func (w *c07Ping) take() ([]bpv7.Bundle, string) {
@@ -397,12 +398,12 @@ type c07Agent struct {
 
 // ---- events ----
 type c07Ev struct {
-	Kind                string // reg rr ru rf wc wd wo wg wb dv
-	A, X                int
-	AKind               int
-	Eids                [][2]int
-	N, D                int // endpoint
-	Bid, RN, RD, Want   int // deliver
+	Kind              string // reg rr ru rf wc wd wo wg wb dv
+	A, X              int
+	AKind             int
+	Eids              [][2]int
+	N, D              int // endpoint
+	Bid, RN, RD, Want int // deliver
 }
 
 func (e c07Ev) S() S {
@@ -497,8 +498,14 @@ func (e *c07Env) bundle(ev c07Ev) bpv7.Bundle {
 	if ev.Want != 0 {
 		fl = bpv7.StatusRequestDelivery
 	}
+	// every second bundle carries extension blocks besides the payload (content as seen by each kind of client)
+	var blks []bpv7.CanonicalBlock
+	if ev.Bid%2 == 1 {
+		blks = []bpv7.CanonicalBlock{bpv7.NewCanonicalBlock(0, 0, bpv7.NewHopCountBlock(64)),
+			bpv7.NewCanonicalBlock(0, 0, bpv7.NewBundleAgeBlock(uint64(ev.Bid)))}
+	}
 	b := MkBundle(BOpt{Src: "dtn://n3/s", Dst: c07Eid(ev.N, ev.D), ReportTo: c07Eid(ev.RN, ev.RD), TS: e.base + uint64(ev.Bid),
-		Life: 3600000, Flags: fl, Payload: []byte(fmt.Sprintf("payload-%d", ev.Bid)), CRC: bpv7.CRC32})
+		Life: 3600000, Flags: fl, Payload: []byte(fmt.Sprintf("payload-%d", ev.Bid)), CRC: bpv7.CRC32, Blocks: blks})
 	e.bundles[ev.Bid] = b
 	e.byID[b.ID().String()] = ev.Bid
 	e.byCbor[hex.EncodeToString(BundleBytes(b))] = ev.Bid
@@ -606,6 +613,35 @@ func c07Post(r *mux.Router, path string, body interface{}) []byte {
 }
 
 // fetchIDs decodes a /fetch response into bundle indices (exact JSON match of each element).
+// c07JSONBlocksMatch reads the fetched JSON without the bundle's own MarshalJSON: the canonical blocks listed
+// must be the bundle's blocks - number, type code, flags - in order (the look-up by the JSON text alone would
+// compare the JSON encoder with itself).
+func c07JSONBlocksMatch(raw json.RawMessage, b bpv7.Bundle) bool {
+	var v struct {
+		PrimaryBlock struct {
+			Destination string `json:"destination"`
+			Source      string `json:"source"`
+		} `json:"primaryBlock"`
+		CanonicalBlocks []struct {
+			BlockNumber   uint64          `json:"blockNumber"`
+			BlockTypeCode uint64          `json:"blockTypeCode"`
+			ControlFlags  json.RawMessage `json:"blockControlFlags"`
+		} `json:"canonicalBlocks"`
+	}
+	if err := json.Unmarshal(raw, &v); err != nil {
+		return false
+	}
+	if len(v.CanonicalBlocks) != len(b.CanonicalBlocks) {
+		return false
+	}
+	for i, cb := range b.CanonicalBlocks {
+		if v.CanonicalBlocks[i].BlockNumber != cb.BlockNumber || v.CanonicalBlocks[i].BlockTypeCode != cb.Value.BlockTypeCode() {
+			return false
+		}
+	}
+	return true
+}
+
 func (e *c07Env) fetchIDs(resp []byte) ([]int, string) {
 	var fr struct {
 		Error   string            `json:"error"`
@@ -618,7 +654,7 @@ func (e *c07Env) fetchIDs(resp []byte) ([]int, string) {
 	for _, raw := range fr.Bundles {
 		var cb bytes.Buffer
 		_ = json.Compact(&cb, raw)
-		if i, ok := e.byJSON[cb.String()]; ok {
+		if i, ok := e.byJSON[cb.String()]; ok && c07JSONBlocksMatch(raw, e.bundles[i]) {
 			ids = append(ids, i)
 		} else {
 			ids = append(ids, c07Altered)
@@ -967,6 +1003,7 @@ func (g *c07Gen) eid() [2]int {
 	p := g.pool[g.r.Intn(len(g.pool))]
 	return p
 }
+
 // eidN: an endpoint to register for; now and then the null endpoint.
 func (g *c07Gen) eidN() [2]int {
 	if g.r.Intn(10) == 0 {
